@@ -6,6 +6,7 @@ import (
 	"sync"
 	"time"
 
+	"github.com/pingcap/kvproto/pkg/metapb"
 	"github.com/pingcap/kvproto/pkg/pdpb"
 	"github.com/tikv/pd/pkg/mock/mockcluster"
 	"github.com/tikv/pd/server/config"
@@ -80,6 +81,38 @@ func (w *world) clearlyLeaderCapable(id uint64) bool {
 	return w.Rules == "off" || w.Rules == "default"
 }
 
+// storeInfo builds the store record for a description (used at start and for live changes).
+func storeInfo(s storeDesc) (*core.StoreInfo, error) {
+	var labels []*metapb.StoreLabel
+	if s.Zone != "" {
+		labels = append(labels, &metapb.StoreLabel{Key: "zone", Value: s.Zone})
+	}
+	if s.Host != "" {
+		labels = append(labels, &metapb.StoreLabel{Key: "host", Value: s.Host})
+	}
+	if s.State == stReject {
+		labels = append(labels, &metapb.StoreLabel{Key: "noleader", Value: "true"})
+	}
+	const capacity = 100 << 30
+	stats := &pdpb.StoreStats{StoreId: s.ID, Capacity: capacity, Available: capacity, IsBusy: s.State == stBusy}
+	far := time.Now().Add(24 * time.Hour) // an "up" store never drifts into "disconnected" during a long run
+	opts := []core.StoreCreateOption{core.SetStoreStats(stats), core.SetLastHeartbeatTS(far)}
+	switch s.State {
+	case stUp, stReject, stBusy:
+	case stOffline:
+		opts = append(opts, core.OfflineStore(false))
+	case stDown:
+		opts = append(opts, core.SetLastHeartbeatTS(time.Time{}))
+	case stDisconnected:
+		opts = append(opts, core.SetLastHeartbeatTS(time.Now().Add(-5*time.Minute)))
+	case stPaused:
+		opts = append(opts, core.PauseLeaderTransfer())
+	default:
+		return nil, fmt.Errorf("unknown store state %q", s.State)
+	}
+	return core.NewStoreInfo(&metapb.Store{Id: s.ID, Labels: labels}, opts...), nil
+}
+
 // config.NewTestOptions registers schedulers in a global map and mock clusters start goroutines:
 // clusters are created one at a time.
 var clusterMu sync.Mutex
@@ -115,38 +148,13 @@ func newCluster(w *world) (*cluster, error) {
 		cancel()
 		return nil, fmt.Errorf("unknown mode %q", w.Mode)
 	}
-	far := time.Now().Add(24 * time.Hour) // an "up" store never drifts into "disconnected" during a long run
 	for _, s := range w.Stores {
-		labels := map[string]string{}
-		if s.Zone != "" {
-			labels["zone"] = s.Zone
-		}
-		if s.Host != "" {
-			labels["host"] = s.Host
-		}
-		if s.State == stReject {
-			labels["noleader"] = "true"
-		}
-		mc.AddLabelsStore(s.ID, 0, labels)
-		st := mc.GetStore(s.ID)
-		switch s.State {
-		case stUp, stReject:
-			st = st.Clone(core.SetLastHeartbeatTS(far))
-		case stOffline:
-			st = st.Clone(core.OfflineStore(false), core.SetLastHeartbeatTS(far))
-		case stDown:
-			st = st.Clone(core.SetLastHeartbeatTS(time.Time{}))
-		case stDisconnected:
-			st = st.Clone(core.SetLastHeartbeatTS(time.Now().Add(-5 * time.Minute)))
-		case stBusy:
-			old := st.GetStoreStats()
-			stats := &pdpb.StoreStats{StoreId: s.ID, Capacity: old.GetCapacity(), Available: old.GetAvailable(), UsedSize: old.GetUsedSize(), IsBusy: true}
-			st = st.Clone(core.SetStoreStats(stats), core.SetLastHeartbeatTS(far))
-		case stPaused:
-			st = st.Clone(core.PauseLeaderTransfer(), core.SetLastHeartbeatTS(far))
-		default:
+		// AddLabelsStore registers the store limits; the record itself is rebuilt by storeInfo
+		mc.AddLabelsStore(s.ID, 0, nil)
+		st, err := storeInfo(s)
+		if err != nil {
 			cancel()
-			return nil, fmt.Errorf("unknown store state %q", s.State)
+			return nil, err
 		}
 		mc.PutStore(st)
 	}
